@@ -155,6 +155,9 @@ def cases():
             out.append(('sublist(list: %s, start position: %d, length: 1)' % (L, pos), show(sublist(xs, pos, 1))))
             out.append(('remove(list: %s, position: %d)' % (L, pos), show(remove(xs, pos))))
             out.append(('insert before(list: %s, position: %d, newItem: 9)' % (L, pos), show(insert_before(xs, pos, 9))))
+        # an explicit null length is no length (outside the domain), in the named form as in the positional one
+        out.append(('sublist(list: %s, start position: 1, length: null)' % L, 'null'))
+        out.append(('sublist(%s, 1, null)' % L, 'null'))
         for bad in ('0', 'null', '"1"', 'true', '[1]'):
             out.append(('sublist(%s, %s)' % (L, bad), 'null'))
             out.append(('remove(%s, %s)' % (L, bad), 'null'))
